@@ -321,7 +321,7 @@ class AnsiString:
             topmost - When False, all other existing settings in this range will take precedent
         '''
         start = self._slice_val_to_idx(start, 0)
-        end = self._slice_val_to_idx(end, len(self._s))
+        end = min(self._slice_val_to_idx(end, len(self._s)), len(self._s))
 
         if not settings or start >= len(self._s) or end <= start:
             # Ignore - nothing to apply
@@ -369,7 +369,7 @@ class AnsiString:
             end - The string index where the setting(s) should be removed
         '''
         start = self._slice_val_to_idx(start, 0)
-        end = self._slice_val_to_idx(end, len(self._s))
+        end = min(self._slice_val_to_idx(end, len(self._s)), len(self._s))
 
         if (settings is not None and not settings) or start >= len(self._s) or end <= start:
             # Ignore - nothing to apply
